@@ -34,7 +34,7 @@ def _immfield_specs():
     from typedpy import Anything, Integer, Tuple, Array, Map, String, Set, Deque
     return {
         "anything": (lambda: Anything(immutable=True),
-                     [["a", ["b"]], {"k": [1]}, (["a", "b"], "meta"), [([1],)], {"k": ({"z": [1]},)}]),
+                     [["a", ["b"]], {"k": [1]}, (["a", "b"], "meta"), [([1],)], {"k": ({"z": [1]},)}, [], {}, set()]),
         "tuple": (lambda: Tuple(items=[Anything, Integer], immutable=True), [(["a"], 1), ({"k": 1}, 2), (([1],), 3)]),
         "array-untyped": (lambda: Array(immutable=True), [[[1], {"k": 2}], [([1],)]]),
         "array-anything": (lambda: Array(items=Anything, immutable=True), [[[1], {"k": 2}, ([3],)]]),
@@ -42,8 +42,10 @@ def _immfield_specs():
         "map-untyped": (lambda: Map(immutable=True), [{"a": [1]}, {"a": ([1],)}]),
         "map-typed": (lambda: Map(items=[String, Array[Integer]], immutable=True), [{"a": [1]}]),
         "array-array": (lambda: Array(items=Array[Integer], immutable=True), [[[1], [2]]]),
-        "set": (lambda: Set(immutable=True), [{1, 2}]),
-        "set-typed": (lambda: Set(items=Integer, immutable=True), [{1, 2}]),
+        "set": (lambda: Set(immutable=True), [{1, 2}, set()]),
+        "set-typed": (lambda: Set(items=Integer, immutable=True), [{1, 2}, set()]),
+        "array-untyped-empty": (lambda: Array(immutable=True), [[]]),
+        "map-untyped-empty": (lambda: Map(immutable=True), [{}]),
     }
 
 
@@ -84,6 +86,54 @@ def run_immfield(case):
                 leaks.append({"field": "f", "via": _short_path(path), "mut": mlabel})
     res["ctor_leaks"] = leaks[:20]
     return res
+
+
+def undefined_cases():
+    """ImmutableStructure classes with _enable_undefined_value: assigning None (or anything) to any field after
+    construction, and deleting, must raise and change nothing"""
+    out = []
+    for imm_cls in (True, False):
+        for req in (True, False):
+            out.append({"suite": "undefimm", "immutable_class": imm_cls, "required_a": req})
+    return out
+
+
+def run_undefimm(case):
+    from typedpy import Structure, ImmutableStructure, Integer, String, Array, Map, ImmutableArray, ImmutableMap, ImmutableString
+    ctx = C.make_ctx()
+    if case["immutable_class"]:
+        body = {"a": Integer(), "s": String(), "xs": Array(items=Integer()), "m": Map(items=[String(), Integer()]), "u": String()}
+        base = ImmutableStructure
+    else:   # mutable class, immutable FIELDS
+        body = {"a": Integer(), "s": ImmutableString(), "xs": ImmutableArray(items=Integer()), "m": ImmutableMap(items=[String(), Integer()]),
+                "u": ImmutableString()}
+        base = Structure
+    body["_enable_undefined_value"] = True
+    body["_required"] = ["a"] if case["required_a"] else []
+    try:
+        cls = type("U", (base,), body)
+        x = cls(a=1, s="joe", xs=[1, 2], m={"k": 1})
+    except Exception as e:
+        return {"skip": f"{type(e).__name__}: {e}"[:200]}
+    watched = ["s", "xs", "m", "u"] + (["a"] if case["immutable_class"] else [])
+    snap = lambda: (str(x), repr(sorted((k, repr(v)) for k, v in x.__dict__.items() if k not in ("_instantiated", "_trust_supplied_values"))),
+                    repr({k: getattr(x, k, "<missing>") for k in watched}))
+    steps = []
+    for name in watched:
+        for label, act in (("=None", lambda n=name: setattr(x, n, None)), ("=value", lambda n=name: setattr(x, n, {"s": "bob", "u": "z", "xs": [9], "m": {"z": 2}, "a": 5}[n])),
+                           ("del", lambda n=name: x.__delitem__(n))):
+            if name == "u" and not case["immutable_class"]:
+                continue      # an immutable FIELD that is not set yet may be set once (also to an explicit None)
+            before = snap()
+            try:
+                act()
+                raised = None
+            except Exception as e:
+                raised = type(e).__name__
+            steps.append({"op": name + label, "raised": raised, "changed": snap() != before})
+            if snap() != before:    # restore by rebuilding
+                x = cls(a=1, s="joe", xs=[1, 2], m={"k": 1})
+    return {"steps": steps}
 
 
 def pre_build():
@@ -134,6 +184,11 @@ def alias_cases(rng, n):
         ({"k": "tupleOf", "item": {"k": "seqAny"}}, T(L(1, 2), L())),
         ({"k": "tupleOf", "item": {"k": "seqOf", "item": {"k": "integer"}}}, T(L(1, 2), L(3))),
         ({"k": "tuplePos", "items": [{"k": "mapAny"}, {"k": "seqOf", "item": {"k": "string"}}]}, T(M(["k", 1]), L("a"))),
+        # falsy stored values: the defensive copy must not depend on the truthiness of what is stored
+        ({"k": "anything"}, L()), ({"k": "anything"}, M()), ({"k": "anything"}, {"s": []}),
+        ({"k": "setAny"}, {"s": []}), ({"k": "setOf", "item": {"k": "integer"}}, {"s": []}),
+        ({"k": "tuplePos", "items": [{"k": "anything"}, {"k": "integer"}]}, T(L(), 0)),
+        ({"k": "seqAny"}, L()), ({"k": "mapAny"}, M()), ({"k": "seqOf", "item": {"k": "seqAny"}}, L(L())),
     ]
     for di, (fd, v) in enumerate(directed):
         cls = {"k": "struct", "name": f"D{di}", "required": ["a"], "addl": False, "fields": [["a", fd]], "immutable": True}
@@ -148,7 +203,7 @@ def alias_cases(rng, n):
 def cases(rng, tier):
     n = 250 if tier == "quick" else 3000
     return S.gen_cases(rng, tier, n, immutable=True) + S.gen_cases(rng, tier, n // 2, immutable=None) \
-        + alias_cases(rng, 25 if tier == "quick" else 400) + immfield_cases()
+        + alias_cases(rng, 25 if tier == "quick" else 400) + immfield_cases() + undefined_cases()
 
 
 def search_cases(rng, tier):
@@ -160,6 +215,8 @@ def run_impl(case):
         return S.run_impl(case)
     if case["suite"] == "immfield":
         return run_immfield(case)
+    if case["suite"] == "undefimm":
+        return run_undefimm(case)
     res = C.run_impl(case)
     if "ok" not in res:
         return res
@@ -223,7 +280,7 @@ def _short_path(path):
 
 
 def line(case, impl):
-    if case["suite"] == "immfield":
+    if case["suite"] in ("immfield", "undefimm"):
         return None
     return S.line(case, impl) if case["suite"] == "mutate" else C.line(case, impl)
 
@@ -233,6 +290,8 @@ def tags(case, impl, model):
         return S.tags(case, impl, model)
     if case["suite"] == "immfield":
         return ["immfield:" + case["spec"]]
+    if case["suite"] == "undefimm":
+        return ["undefimm:" + ("class" if case["immutable_class"] else "fields")]
     return ["alias-probe" if case.get("probe") else "subclassing"] + (["impl:skipped"] if "ok" not in impl else [])
 
 
@@ -245,11 +304,23 @@ def describe(case, impl, model):
         return S.describe(case, impl, model)
     if case["suite"] == "immfield":
         return {"immfield": case, "probe_changed": impl.get("probe"), "ctor_leaks": impl.get("ctor_leaks")}
+    if case["suite"] == "undefimm":
+        return {"undefimm": case, "steps": impl.get("steps")}
     return {"cls": case["cls"], "kw": case["kw"], "probe_changed": impl.get("probe"), "ctor_leaks": impl.get("ctor_leaks")}
 
 
 def judge(case, impl, model):
     fails = []
+    if case["suite"] == "undefimm":
+        kind = "class" if case["immutable_class"] else "fields"
+        for st in impl.get("steps", []):
+            if st["changed"]:
+                fails.append((f"undefined-immutable-changed:{kind}:{st['op'].split('=')[-1] if '=' in st['op'] else 'del'}",
+                              f"{st['op']} on an _enable_undefined_value class with immutable {kind} changed the instance (raised: {st['raised']})"))
+            elif st["raised"] is None:
+                fails.append((f"undefined-immutable-no-raise:{kind}:{st['op'].split('=')[-1] if '=' in st['op'] else 'del'}",
+                              f"{st['op']} on an _enable_undefined_value class with immutable {kind} did not raise"))
+        return None, fails
     if case["suite"] == "immfield":
         for r in impl.get("probe", []):
             fails.append((f"immfield-leak:{case['spec']}:{r['via']}:{r['mut']}",
